@@ -4,6 +4,7 @@ import Pyvsc.Spec.Values
 import Pyvsc.Model.Bins
 import Pyvsc.Spec.Bins
 import Pyvsc.Model.Covergroup
+import Pyvsc.Drv.Solve
 /-!
 # pvdrv — line-protocol driver for the executable model
 
@@ -337,6 +338,7 @@ def handle (j : Json) : Except String Json := do
   else if op.startsWith "cp." then handleCp op j
   else if op.startsWith "s." then handleSpec op j
   else if op.startsWith "cg." then handleCg op j
+  else if op.startsWith "z." then Pyvsc.DrvSolve.handle op j
   else throw s!"unknown op {op}"
 
 partial def loop (hin : IO.FS.Stream) (hout : IO.FS.Stream) : IO Unit := do
